@@ -162,6 +162,8 @@ PROPERTIES = {
             {"name": "broadcast_uses", "cases": FE.c03_cases(tier, seed), "mask": M_GRAD | M_UPD,
              "what": "operand a broadcast to b's shape (all strictly-broadcast pairs rank<=3 sizes<=3, sampled in quick) used 1..3 times through add/sub/mul/axpy, 1..2 passes with prime seeds, then a two-parameter update; matmul additive terms over rows and batches",
              "require": {"passes": 400, "updates": 200}},
+            tlc_family("tlc_broadcast_graphs", "GenEngine_bcpass", "C03", limit=2500 if tier == "quick" else 30000, seed=seed,
+                       mask=M_GRAD, exhaustive=True, require={"passes": 1000}),
         ],
         "rule": "a case = one broadcast pair x number of uses x number of passes; distinct by program hash",
     },
